@@ -18,9 +18,10 @@ WellFormed ==
   /\ \A i \in 1..NRel : LET r == Rels[i]
                         IN /\ r.kind \in Kinds /\ r.dom \in Doms /\ r.f \in Funs
                            /\ r.g \in Funs \cup {"-"} /\ r.h \in Funs \cup {"-"} /\ r.cond \in 1..65536
-                           /\ (r.kind = "axis") <=> (r.dom # "all") /\ r.amp \in Amps
+                           /\ (r.kind \in {"axis", "powf_near", "pow_near"}) <=> (r.dom # "all") /\ r.amp \in Amps
   /\ \A i, j \in 1..NRel : (Rels[i].id = Rels[j].id) => i = j
   /\ Cardinality(RegSet) = NReg /\ NReg = 144 + 768 + 29
+  /\ Decomp \subseteq Funs /\ Cardinality(Decomp) = 20 /\ (Inverse \ {"ln"}) \subseteq Decomp
   /\ \A c \in Cuts : c.axis \in {"re", "im"} /\ c.segs \subseteq {"lo", "ml", "mh", "hi"} /\ c.segs # {} /\ c.fs \subseteq Funs
 \* every one of the 38 functions has a defining relation over the whole lattice
 EveryFunctionDefined == \A f \in Funs : \E r \in RelSet : Defining(r) /\ r.f = f /\ r.dom = "all"
